@@ -133,7 +133,7 @@ JOBS.update({
     "C14": dict(level="fault_enumeration", rule=PROCS_RULE,
         jobs=procs_jobs("C14", ["mix=res,faults=2,rec=1", "mix=pool,faults=2,rec=1", "mix=buf,faults=2,rec=1", "mix=oq,faults=2,rec=1", "mix=pq,faults=2,rec=1"], 900000, 24000000, sweep_mixes=["mix=res,rec=1", "mix=pool,rec=1", "mix=pq,rec=1"]),
         wall_quick=55, wall_thorough=1200,
-        assumptions=["one recording window per object per run; the true trajectory is sampled by the harness at every instant boundary (integer-grid times make the reference integral exact)"]),
+        assumptions=["up to three recording windows per object per run; the exact average is taken over the time during which recording was on (a pause is not recorded, whatever happened in it); the true trajectory is sampled by the harness at every instant boundary (integer-grid times make the reference integral exact)"]),
 })
 
 JOBS.update({
